@@ -290,12 +290,60 @@ func (c *Ctx) RuleInputReadOnly(fns ...*ssa.Function) {
 	}
 }
 
+// RuleFieldReadOnly: the methods of a type that keeps the parser's input in a field (the typed parse errors) only
+// read it: no write through an alias of a load of that field.
+func (c *Ctx) RuleFieldReadOnly(field string, fns ...*ssa.Function) {
+	for _, fn := range fns {
+		before := len(c.Out)
+		roots := map[ssa.Value]bool{}
+		for _, b := range fn.Blocks {
+			for _, in := range b.Instrs {
+				switch x := in.(type) {
+				case *ssa.UnOp:
+					if fa, ok := x.X.(*ssa.FieldAddr); ok && x.Op == token.MUL && fieldName(fa.X.Type(), fa.Field) == field {
+						roots[x] = true
+					}
+				case *ssa.Field:
+					if fieldName(x.X.Type(), x.Field) == field {
+						roots[x] = true
+					}
+				}
+			}
+		}
+		if len(roots) == 0 {
+			c.add("discharged", "C17.ro", fn, fn.Pos(), "does not touch the kept input")
+			continue
+		}
+		c.inputROFrom(fn, roots, 0, map[*ssa.Function]bool{})
+		if len(c.Out) == before {
+			c.add("discharged", "C17.ro", fn, fn.Pos(), "no write through an alias of the kept input (field "+field+")")
+		}
+	}
+}
+
+func fieldName(t types.Type, i int) string {
+	if p, ok := t.Underlying().(*types.Pointer); ok {
+		t = p.Elem()
+	}
+	if st, ok := t.Underlying().(*types.Struct); ok && i < st.NumFields() {
+		return st.Field(i).Name()
+	}
+	return ""
+}
+
 func (c *Ctx) inputRO(fn *ssa.Function, pi int, depth int, seen map[*ssa.Function]bool) {
+	c.inputROFrom(fn, map[ssa.Value]bool{fn.Params[pi]: true}, depth, seen)
+}
+
+func (c *Ctx) inputROFrom(fn *ssa.Function, roots map[ssa.Value]bool, depth int, seen map[*ssa.Function]bool) {
 	if depth > 5 || seen[fn] {
 		return
 	}
 	seen[fn] = true
-	alias := map[ssa.Value]bool{fn.Params[pi]: true}
+	alias := map[ssa.Value]bool{}
+	for r := range roots {
+		alias[r] = true
+	}
 	changed := true
 	for changed {
 		changed = false
